@@ -27,6 +27,9 @@ pub struct Pair {
     pub inputs: Vec<String>,
     pub rules: Vec<String>,
     pub ident_tokens: Vec<String>,
+    /// kind "LexOnly": the lexer by itself; token ids supplied by the user
+    #[serde(default)]
+    pub ids: Vec<(String, u32)>,
 }
 
 fn render_y(ag: &AG, kind: &str, settings: &serde_json::Map<String, Value>) -> String {
@@ -239,6 +242,7 @@ pub fn gen_pair(ch: &mut Choices, id: u64) -> Option<Pair> {
         inputs,
         rules: ag.rules.iter().map(|r| r.name.clone()).collect(),
         // N_* constants only exist for identifier-like token names
+        ids: vec![],
         ident_tokens: ag
             .tokens
             .iter()
@@ -249,6 +253,37 @@ pub fn gen_pair(ch: &mut Choices, id: u64) -> Option<Pair> {
             .cloned()
             .collect(),
     })
+}
+
+/// A lexer-only item: a specification from the lexer generators (start states with push / pop /
+/// replace targets, prefixes, every kind of escape, flags in a %grmtools section, varied
+/// rendering), ids for its named rules, inputs sampled from its rules.
+pub fn gen_lex_pair(ch: &mut Choices, id: u64) -> Pair {
+    use crate::genr::lexspec::{RenderOpts, gen_al, render};
+    let al = gen_al(ch, 5);
+    let o = RenderOpts::generate(ch, al.rules.len(), true);
+    let (ltext, _) = render(&al, &o);
+    let inputs = crate::props::c09::gen_inputs(ch, &al, 6);
+    let mut ids = vec![];
+    let mut seen = std::collections::BTreeSet::new();
+    for (i, r) in al.rules.iter().enumerate() {
+        if let Some(n) = &r.name {
+            if seen.insert(n.clone()) {
+                ids.push((n.clone(), 1 + i as u32));
+            }
+        }
+    }
+    Pair {
+        id,
+        kind: "LexOnly".into(),
+        ytext: String::new(),
+        ltext,
+        settings: serde_json::Map::new(),
+        inputs,
+        rules: vec![],
+        ident_tokens: vec![],
+        ids,
+    }
 }
 
 fn stream(seed: u64, n: usize) -> Vec<u32> {
@@ -270,18 +305,24 @@ fn write_batch(dir: &Path, pairs: &[Pair]) {
     if let Ok(rd) = std::fs::read_dir(&gen_dir) {
         for e in rd.flatten() {
             let n = e.file_name().to_string_lossy().to_string();
-            if n.starts_with('g') && (n.ends_with(".y") || n.ends_with(".l")) {
+            if (n.starts_with('g') || n.starts_with('x')) && (n.ends_with(".y") || n.ends_with(".l")) {
                 let _ = std::fs::remove_file(e.path());
             }
         }
     }
     let mut specs = vec![];
+    let mut lexers = vec![];
     for p in pairs {
+        if p.kind == "LexOnly" {
+            std::fs::write(gen_dir.join(format!("x{}.l", p.id)), &p.ltext).unwrap();
+            lexers.push(json!({"id": p.id, "ids": p.ids, "inputs": p.inputs}));
+            continue;
+        }
         std::fs::write(gen_dir.join(format!("g{}.y", p.id)), &p.ytext).unwrap();
         std::fs::write(gen_dir.join(format!("g{}.l", p.id)), &p.ltext).unwrap();
         specs.push(json!({"id": p.id, "kind": p.kind, "settings": p.settings, "inputs": p.inputs, "rules": p.rules, "ident_tokens": p.ident_tokens}));
     }
-    std::fs::write(gen_dir.join("spec.json"), serde_json::to_string_pretty(&json!({"pairs": specs})).unwrap()).unwrap();
+    std::fs::write(gen_dir.join("spec.json"), serde_json::to_string_pretty(&json!({"pairs": specs, "lexers": lexers})).unwrap()).unwrap();
 }
 
 /// Runs one batch: returns the parsed CTBATCH report or an error text.
@@ -363,6 +404,13 @@ pub fn custom_run(cfg: &RunCfg) -> i32 {
                 k += 1;
             }
         }
+        // lexer-only items (ids 5000..) ride in the same batch
+        let nlex = cfg.tier.pick(60, 80);
+        for k in 0..nlex {
+            let s = stream(hash64(&format!("{}/C13/lex/{bi}/{k}", cfg.seed)), 600);
+            let mut ch = Choices::new(&s);
+            pairs.push(gen_lex_pair(&mut ch, 5000 + bi as u64 * 100 + k as u64));
+        }
         match run_batch(&engine, &pairs) {
             Ok(rep) => {
                 programs += rep["pairs_run"].as_u64().unwrap_or(0);
@@ -378,7 +426,7 @@ pub fn custom_run(cfg: &RunCfg) -> i32 {
                     }
                 }
                 for p in &pairs {
-                    if !p.settings.is_empty() || p.inputs.iter().any(|i| i.contains('?')) {
+                    if !p.settings.is_empty() || p.inputs.iter().any(|i| i.contains('?')) || p.kind == "LexOnly" {
                         nontrivial.insert(hash64(&format!("{}{}", p.ytext, p.ltext)));
                     }
                 }
@@ -397,7 +445,7 @@ pub fn custom_run(cfg: &RunCfg) -> i32 {
             Err((kind, e)) => {
                 if kind == "generated-code" {
                     // which pair? the error text names the generated file
-                    let id = pairs.iter().find(|p| e.contains(&format!("g{}.y.rs", p.id)) || e.contains(&format!("g{}.l.rs", p.id)));
+                    let id = pairs.iter().find(|p| e.contains(&format!("g{}.y.rs", p.id)) || e.contains(&format!("g{}.l.rs", p.id)) || e.contains(&format!("x{}.l.rs", p.id)));
                     if let Some(p) = id {
                         all_mismatches.push((p.clone(), json!({"what": "generated module does not compile", "rustc": e.chars().take(3000).collect::<String>()})));
                         continue;
@@ -426,7 +474,7 @@ pub fn custom_run(cfg: &RunCfg) -> i32 {
             "disagreements_checked": comparisons,
             "evaluations": comparisons,
             "distinct_nontrivial": nontrivial.len(),
-            "rule": "Pairs (grammar, lexer) whose token names agree: AG from strata rand/expr/lr1/repo (cycle-free, loop-free tables, random precedence and %avoid_insert), kinds Grmtools (user actions from a fixed template recording production, $span, every $i as Ok/Err lexeme or child string, $lexer and $$), Original(GenericParseTree), Original(NoAction); settings sampled: yacckind through builder or %grmtools header, recoverer CPCT+/None through builder and/or header, serialisation format, Rust edition, visibility, lexer flags through builder or header; 7 inputs per pair (sentences, near misses, upper-cased words, multi-line skip text, a lexing error). One cargo build of engine/ctbatch runs the real CTLexerBuilder/CTParserBuilder per pair in its build script; its binary lexes and parses every input with the generated modules and with LRNonStreamingLexerDef/RTParserBuilder built from the same source strings (user actions evaluated natively) and compares lexemes, value/tree, errors with repair sets, token_epp, R_*/N_* constants; each module's first parse is also made by 8 barrier-released threads (C15). programs = pairs compiled and run; disagreements_checked = comparisons. Non-trivial pair: non-default setting or an input with a lexing error; distinct by hash(sources).",
+            "rule": "Pairs (grammar, lexer) whose token names agree: AG from strata rand/expr/lr1/repo (cycle-free, loop-free tables, random precedence and %avoid_insert), kinds Grmtools (user actions from a fixed template recording production, $span, every $i as Ok/Err lexeme or child string, $lexer and $$), Original(GenericParseTree), Original(NoAction); settings sampled: yacckind through builder or %grmtools header, recoverer CPCT+/None through builder and/or header, serialisation format, Rust edition, visibility, lexer flags through builder or header; 7 inputs per pair (sentences, near misses, upper-cased words, multi-line skip text, a lexing error). One cargo build of engine/ctbatch runs the real CTLexerBuilder/CTParserBuilder per pair in its build script; its binary lexes and parses every input with the generated modules and with LRNonStreamingLexerDef/RTParserBuilder built from the same source strings (user actions evaluated natively) and compares lexemes, value/tree, errors with repair sets, token_epp, R_*/N_* constants; each module's first parse is also made by 8 barrier-released threads (C15). programs = pairs compiled and run; disagreements_checked = comparisons. Besides the pairs, 60 (thorough: 80 per batch) lexer-only items: a specification from the lexer generators of C09/C11 (start states with push/pop/replace targets, <..> prefixes, every kind of escape, flags in a %grmtools section, varied rendering) built by CTLexerBuilder with a user-supplied rule_ids_map; the generated module's definition (rules: id, name, expression, start states, target; start states) and its lexemes on 6 inputs sampled from the rules must equal those of LRNonStreamingLexerDef::from_str + set_rule_ids on the same text, and one side refusing what the other accepts is a mismatch. Non-trivial pair: non-default setting or an input with a lexing error, or a lexer-only item; distinct by hash(sources).",
             "samples": samples,
             "classes": classes,
             "replayed": replay_pairs.len(),
